@@ -13,7 +13,7 @@ Every fit case is one or two REAL calls of `fit` on one real Positive/Complex/De
   with another lr / scheduler / k / negative batch size: every per-step relation applies unchanged to the second run.
 SAME-OBJECT HISTORIES (fixed ones run first, before any time budget; ~40 % of the generated cases): fit -> mutation(s) ->
   fit [-> mutation(s) -> fit] on ONE state object, with the same callback object, the same data tensor / array, bases array
-  and optimizer_args / scheduler_args dict objects (contents replaced in place) handed to every call.  Mutations = what the
+  and optimizer_args / scheduler_args objects handed to every call (see ARGUMENT OBJECTS).  Mutations = what the
   library offers or tolerates: state.reinitialize_parameters(); rbm.initialize_parameters([zero_weights]); re-binding one or
   several parameters (rbm.weights = nn.Parameter(..)); replacing a whole network through the rbm_am / rbm_ph setter (also by
   one with another number of hidden units); p.data = t; p.data.copy_(t); p.copy_(t) under no_grad; rbm.load_state_dict;
@@ -28,6 +28,24 @@ SAME-OBJECT HISTORIES (fixed ones run first, before any time budget; ~40 % of th
   sample / negative-batch tensors and bases array, with the same mutations or in-place refills of those buffers / another k in
   between, and with NaN written into the tensors it returned; vector_to_grads twice on one network (re-initialised /
   one parameter re-bound / the same vector object refilled / parameters passed as a list).
+
+ARGUMENT OBJECTS (seed round 6: objects the caller hands over and what happens to them LATER):
+  * the caller keeps ONE optimizer_args / ONE scheduler_args object per container form for the whole history and between two
+    calls writes only the keys IT set and whose wanted value changed (it never clears the object): whatever a fit() call wrote
+    into or removed from the object is still there at the next call.  Forms (all accepted by the unchanged library, which only
+    unpacks them with **): dict omitted when empty, the same dict handed over even when empty (also scheduler_args={} with
+    scheduler=None), a fresh literal per call, one collections.OrderedDict / UserDict, a read-only MappingProxyType view.
+    Fixed histories that run first hand one such object to 2..3 fit() calls with DIFFERENT lr and the SAME scheduler settings
+    (every form x optimizer form), and to fit() calls on TWO state objects (spec["prelude"]).
+  * after EVERY fit() call a deep snapshot of every object handed over (containers recursively, arrays / tensors with dtype,
+    shape, strides, values; everything else by identity) is compared with the one taken before.  C06 does not forbid fit to
+    write into them as such, so a difference is no failure by itself: it is counted and makes the harness issue one more
+    fit() call with the VERY SAME objects, another lr and the same scheduler settings, judged by the per-step relations
+    (a stale lr / scheduler argument left behind in the caller's object shows there as a wrong displacement).
+  * callbacks handed over as list, tuple, generator, iter(list), filter, CallbackList; data also as a tuple of tuples
+    (input_bases must be a numpy array: the unchanged library indexes it with an index array).
+  * state.load(file): afterwards the file is overwritten in place, deleted, and another, larger model is saved under the same
+    path before the next fit.
 
 CALL FORMS (fixed cases that run first + rotating in the generated stream; every later fit() of a history draws its own):
   * scheduler kind: StepLR, ExponentialLR, LambdaLR, OneCycleLR, CyclicLR (cycle_momentum off: the optimizer stays plain SGD),
@@ -70,7 +88,7 @@ Regimes: tiny shapes (brute-force everything), larger shapes nv, nh ~ 20..40 (fo
 Correspondence: the extracted Coq model (CDStep.cbg_binary/cbg_purification, vector_to_grads, assign_grads,
   sgd_step, batch_update, run_epochs/steplr) on the captured inputs vs what the implementation did.
 """
-import math, time, copy, itertools, functools, warnings
+import math, time, copy, itertools, functools, warnings, collections, collections.abc, types
 import numpy as np
 import gen
 
@@ -79,7 +97,11 @@ RULE = ("one case = one real fit() run (20 %: two consecutive fit() calls on the
         "{reinitialize_parameters, rbm.initialize_parameters, re-bound nn.Parameter, network replaced via setter (also other "
         "num_hidden), .data =, .data.copy_, copy_ under no_grad, load_state_dict, state.load(file), user's optimizer step, NaN in "
         "left-over .grad, none, identical fit() call again}, 25 % of those steps with an in-place parameter edit made by a callback "
-        "at the start of one batch of the running fit; same callback / data / bases / args-dict objects at every call): state type in {positive, complex, density matrix}, nv 1..3(4), nh 1..3, na 1..2 (10 % of the random "
+        "at the start of one batch of the running fit; same callback / data / bases / optimizer_args / scheduler_args objects at every call - the caller writes only its own keys, "
+        "container form per call from {dict omitted when empty, same dict also when empty, fresh literal, OrderedDict, UserDict, MappingProxyType}, "
+        "callbacks container from {list, tuple, generator, iter, filter, CallbackList}; every argument object is snapshotted before and "
+        "compared after each fit, a change triggers one more fit with the very same objects and lr * 0.2; fixed first: 9 histories "
+        "handing ONE args object to 2..3 fits with different lr and unchanged scheduler settings, two of them across two state objects): state type in {positive, complex, density matrix}, nv 1..3(4), nh 1..3, na 1..2 (10 % of the random "
         "draws: nv, nh in 20..40), N 1..9 samples (numpy array or torch tensor), pos_batch_size / neg_batch_size equal or "
         "different, dividing N or not, k = 0..3, lr from {1e-3, 0.05, 0.3, 1.0, log-uniform}, 1..4 epochs run from starting_epoch "
         "1..3, scheduler None or StepLR(step_size 1..3, gamma), optimizer_args absent or neutral (momentum=0, weight_decay=0: still "
@@ -101,6 +123,7 @@ ASSUMPTIONS = [
     "positive phase of Complex/DensityMatrix states is taken from state.positive_phase_gradients at the batch's parameters (its correctness is C03); for PositiveWaveFunction it is also recomputed in numpy",
     "torch.bernoulli(p) returns independent 0/1 draws with P(1) = p per entry (trusted, as in C05); draws made by other means are judged by the Hoeffding-bounded statistical law test (delta = 1e-9 per entry)",
     "stop requests during fit are not generated here (C12)",
+    "a fit() call that changes an object the caller handed over (optimizer_args, scheduler_args, data, bases, callbacks container) is not a C06 failure by itself: the property is decided on a further fit() call that re-uses the very same objects with another lr",
     "runs without callbacks: the number of epochs run and of batches per epoch is taken as requested (epochs - starting_epoch + 1, ceil(N / pos_batch_size)); that these numbers are right is C12 / C07",
     "optimizer omitted / torch.optim.SGD itself: optimizer.step is observed through torch's public global hooks (torch.optim.optimizer.register_optimizer_step_pre_hook / _post_hook) for the duration of the fit call",
     "OUT OF SCOPE (red team 2, C06_0, unchanged tree): `del rbm.visible_bias; rbm.visible_bias = nn.Parameter(..)` re-registers the parameter at the END of parameters(), so fit's flat gradient is sliced in another order (visible/hidden bias swapped when nv == nh, vector_to_grads raises otherwise); this needs the user to delete and re-register attributes of a library module, which the property does not quantify over: 'each value lands on the parameter it belongs to' is decided for parameters in the registration order the library's constructors produce (re-binding an existing name keeps its position and IS generated)",
@@ -295,9 +318,22 @@ OPT_FORMS = ["class", "default", "sgd", "partial", "factory", "lambda"]
 CALLABLE_FORMS = ["class", "partial", "factory", "lambda"]
 INT_KINDS = ["uint8", "int8", "uint16", "int32", "int64", "arr0d", "arr0d_uint8"]
 DATA_FORMS = ["ndarray", "tensor", "list", "np_reversed", "np_flipped", "np_fortran", "np_stride2", "np_readonly", "np_int",
-              "tensor_view", "tensor_float32"]
+              "tensor_view", "tensor_float32", "tuple"]
+# how the caller's optimizer_args / scheduler_args containers are handed over (every form the unchanged library accepts: it
+# only unpacks them with **).  The caller keeps ONE object per form for the whole history and between two calls writes only the
+# keys IT set and whose wanted value changed - whatever a fit() call wrote into (or removed from) the object is still there
+# at the next call, exactly as in user code that keeps its settings in one dict.
+#   shared           the caller's dict, omitted when there is nothing to pass (the historic form of this check)
+#   shared_explicit  the same dict, handed over even when empty (optimizer_args={} / scheduler_args={} with scheduler=None)
+#   fresh            a new dict literal per call
+#   ordered / userdict   one collections.OrderedDict / collections.UserDict object for the whole history, always handed over
+#   proxy            a read-only types.MappingProxyType view of the caller's dict, always handed over
+ARGS_FORMS = ["shared", "shared_explicit", "fresh", "ordered", "userdict", "proxy"]
+# the container the recording callback is handed over in (CallbackList(list(callbacks)) accepts any iterable)
+CB_CONTAINERS = ["list", "tuple", "generator", "iter", "filter", "callback_list"]
 # options of one fit() call that older replay files do not carry (defaults = what the check always did)
-RUN_OPTS = {"opt_form": "class", "sched_form": "class", "callbacks": "recording", "int_kind": None, "data_form": None}
+RUN_OPTS = {"opt_form": "class", "sched_form": "class", "callbacks": "recording", "int_kind": None, "data_form": None,
+            "args_form": "shared", "cb_container": "list"}
 
 
 def _sched(rng, kind=None):
@@ -382,6 +418,8 @@ def _run_opts(rng, sched, allow_nocb=True):
     o["callbacks"] = "recording" if (not allow_nocb or rng.random() < 0.8) else str(rng.choice(["omitted", "empty_list", "none"]))
     o["int_kind"] = None if rng.random() < 0.75 else str(rng.choice(INT_KINDS))
     o["data_form"] = None if rng.random() < 0.55 else str(rng.choice(DATA_FORMS[2:]))
+    o["args_form"] = "shared" if rng.random() < 0.4 else str(rng.choice(ARGS_FORMS[1:]))
+    o["cb_container"] = "list" if rng.random() < 0.6 else str(rng.choice(CB_CONTAINERS[1:]))
     return o
 
 
@@ -472,6 +510,8 @@ def rand_spec(ctx, kind=None, k=None, pattern=None, large=None, second=None, his
                           "k": int(rng.integers(0, 4)), "neg_batch_size": int(rng.integers(1, 6)),
                           "pos_batch_size": pb, "optimizer_args": optimizer_args, "data_as_tensor": data_as_tensor}
         spec["second"].update(_run_opts(rng, spec["second"]["scheduler"]))
+        if rng.random() < 0.7:
+            spec["second"]["args_form"] = spec["args_form"]      # the SAME container object is handed over again
     return spec
 
 
@@ -607,6 +647,14 @@ def apply_mutation(ctx, s, kind, mut):
         torch.save(blob, path)                                 # the documented file layout: {network: state_dict, **metadata}
         try:
             s.load(path)
+            # the file belongs to the caller again: overwritten in place (same length), replaced by another, larger model,
+            # then deleted - the loaded state must not be backed by it (the following fit is judged on the live parameters,
+            # which must only change through optimizer.step)
+            size = os.path.getsize(path)
+            with open(path, "r+b") as fh:
+                fh.write(b"\0" * size)
+            os.remove(path)
+            torch.save({net: {name: torch.cat([T(v).reshape(-1)] * 3) for name, v in vals.items()} for net, vals in mut["targets"].items()}, path)
         finally:
             if os.path.exists(path):
                 os.remove(path)
@@ -633,6 +681,12 @@ def rand_run(ctx, base, same=False):
            "k": int(rng.integers(0, 4)), "neg_batch_size": (None if rng.random() < 0.2 else int(rng.integers(1, 6))),
            "pos_batch_size": base["pos_batch_size"], "optimizer_args": base["optimizer_args"], "data_as_tensor": base["data_as_tensor"]}
     run.update(_run_opts(rng, run["scheduler"]))
+    if base.get("args_form") and rng.random() < 0.7:
+        run["args_form"] = base["args_form"]
+    if rng.random() < 0.3:
+        run["scheduler"] = copy.deepcopy(base["scheduler"])      # same scheduler settings: the caller does not touch its dict
+        if run["scheduler"] is None:
+            run["sched_form"] = "class"
     return run
 
 
@@ -704,6 +758,40 @@ def fixed_histories(ctx):
     return out
 
 
+def fixed_shared_args(ctx):
+    """Histories in which the caller keeps ONE optimizer_args / scheduler_args object (in every accepted container form, also an
+    explicitly passed empty one) and hands it to several fit() calls that ask for DIFFERENT learning rates with the SAME
+    scheduler settings (so the caller never touches the objects between the calls), on one state object or on two."""
+    neutral = {"momentum": 0.0, "weight_decay": 0.0}
+    plan = [   # state, args_form, optimizer_args, optimizer form, scheduler, lrs of the further calls, prelude lr
+        ("positive", "shared_explicit", None, "class", {"step_size": 1, "gamma": 0.5}, [0.02, 0.5], None),
+        ("complex", "shared", neutral, "default", {"kind": "ExponentialLR", "gamma": 0.5}, [0.3], None),
+        ("dm", "ordered", None, "sgd", {"step_size": 2, "gamma": 0.1}, [0.01], None),
+        ("positive", "userdict", neutral, "partial", None, [1.0, 0.03], None),
+        ("complex", "proxy", None, "lambda", {"step_size": 1, "gamma": 1.5}, [0.004], None),
+        ("dm", "shared_explicit", neutral, "factory", None, [0.2], None),
+        ("positive", "fresh", neutral, "class", {"step_size": 1, "gamma": 0.5}, [0.25], None),
+        ("positive", "shared_explicit", None, "default", None, [], 0.7),          # two states, one settings dict
+        ("complex", "ordered", neutral, "class", {"step_size": 1, "gamma": 0.5}, [0.05], 0.9),
+    ]
+    out = []
+    for i, (kind, aform, oargs, oform, sched, lrs, pre) in enumerate(plan):
+        sp = rand_spec(ctx, kind, i % 3, ["neg_smaller", "neg_larger", "equal_nodiv"][i % 3], large=False, second=False)
+        sp.update(RUN_OPTS)
+        sp.update(lr=0.1, epochs=2, starting_epoch=1, scheduler=copy.deepcopy(sched), optimizer_args=copy.deepcopy(oargs),
+                  args_form=aform, opt_form=oform)
+        if lrs:
+            add_history(ctx, sp, [[] for _ in lrs])
+            for st, lr in zip(sp["history"], lrs):
+                st["run"].update(RUN_OPTS)
+                st["run"].update(lr=lr, scheduler=copy.deepcopy(sched), optimizer_args=copy.deepcopy(oargs), args_form=aform,
+                                 opt_form=oform, epochs=2, starting_epoch=1)
+        if pre is not None:
+            sp["prelude"] = {"lr": pre, "epochs": 1}
+        out.append(("shared_args_objects:%s%s" % (aform, "+two_states" if pre is not None else ""), sp))
+    return out
+
+
 def fixed_specs(ctx):
     """Cases that always run first (regimes the random stream reaches only with small probability)."""
     out = []
@@ -766,6 +854,8 @@ def fixed_call_forms(ctx):
         ("callbacks_None", "OneCycleLR", {"callbacks": "none", "opt_form": "sgd"}),
         ("plain_call:no_optimizer_no_callbacks", "ExponentialLR", {"callbacks": "omitted", "opt_form": "default"}),
     ]
+    for j, cc in enumerate(CB_CONTAINERS[1:]):                                 # C'. the callbacks in every iterable form
+        plan.append(("callbacks_container:" + cc, "StepLR" if j % 2 else None, {"cb_container": cc, "args_form": ARGS_FORMS[1 + j % 5]}))
     for ik in INT_KINDS:                                                       # D. integer arguments
         plan.append(("integer_arguments:" + ik, "StepLR" if len(plan) % 2 else None, {"int_kind": ik}))
     out = []
@@ -821,14 +911,52 @@ def build_state(spec):
 # ------------------------------------------------------------------------------------------ recording one state
 SPEC_KEYS = ["state", "nv", "nh", "na", "N", "pos_batch_size", "neg_batch_size", "pattern", "k", "lr", "epochs", "scheduler",
              "data", "bases", "am", "ph", "torch_seed"]
-SPEC_DEFAULTS = dict({"starting_epoch": 1, "optimizer_args": None, "data_as_tensor": False, "second": None, "history": None}, **RUN_OPTS)
+SPEC_DEFAULTS = dict({"starting_epoch": 1, "optimizer_args": None, "data_as_tensor": False, "second": None, "history": None,
+                      "prelude": None}, **RUN_OPTS)
 RUN_KEYS = ["lr", "scheduler", "epochs", "starting_epoch", "k", "neg_batch_size", "pos_batch_size", "optimizer_args", "data_as_tensor"]
+
+
+def _plain_equal(a, b):
+    try:
+        return type(a) is type(b) and not callable(a) and bool(a == b)
+    except Exception:
+        return False
+
+
+def _snap_arg(o):
+    """Deep snapshot of an argument object: mappings / sequences recursively, arrays and tensors by value (with dtype, shape
+    and strides), everything else (classes, callables, callbacks, iterators, numbers) by identity / equality."""
+    import torch
+    if isinstance(o, torch.Tensor):
+        return ("tensor", str(o.dtype), tuple(o.shape), tuple(o.stride()), o.detach().clone())
+    if isinstance(o, np.ndarray):
+        return ("ndarray", str(o.dtype), o.shape, o.strides, o.flags.writeable, o.copy())
+    if isinstance(o, collections.abc.Mapping):
+        return ("mapping", type(o), [(k, _snap_arg(v)) for k, v in o.items()])
+    if isinstance(o, (list, tuple)):
+        return ("sequence", type(o), [_snap_arg(v) for v in o])
+    return ("object", o)
+
+
+def _same_arg(a, b):
+    import torch
+    if a[0] != b[0]:
+        return False
+    if a[0] == "tensor":
+        return a[1:4] == b[1:4] and bool(torch.equal(a[4], b[4]) or (torch.isnan(a[4]) == torch.isnan(b[4])).all() and torch.equal(torch.nan_to_num(a[4].double()), torch.nan_to_num(b[4].double())))
+    if a[0] == "ndarray":
+        return a[1:5] == b[1:5] and bool(np.array_equal(a[5], b[5], equal_nan=a[5].dtype.kind in "fc"))
+    if a[0] == "mapping":
+        return a[1] is b[1] and len(a[2]) == len(b[2]) and all(ka == kb and _same_arg(va, vb) for (ka, va), (kb, vb) in zip(a[2], b[2]))
+    if a[0] == "sequence":
+        return a[1] is b[1] and len(a[2]) == len(b[2]) and all(_same_arg(va, vb) for va, vb in zip(a[2], b[2]))
+    return a[1] is b[1] or _plain_equal(a[1], b[1])
 
 
 class Recorder:
     """One real state with observation points installed once; fit() may be called on it several times."""
 
-    def __init__(self, spec):
+    def __init__(self, spec, share_from=None):
         import torch
         from qucumber.callbacks import CallbackBase
         self.spec = spec
@@ -843,7 +971,16 @@ class Recorder:
         self.data_objs = {"ndarray": self.data_np, "tensor": self.data_t}
         self.in_mut = False                   # a mutation of the harness is running (its optimizer step is not fit's)
         self.bases_np = None if spec["state"] == "positive" else np.array([list(b) for b in spec["bases"]])
-        self.opt_args, self.sched_args = {}, {}
+        # the caller's argument containers, one object per form for the whole history (see ARGS_FORMS); `own` = the keys the
+        # CALLER wrote and the values it gave them (it never clears the object: what a fit() call left in it stays)
+        if share_from is not None:
+            self.arg_objs, self.arg_own = share_from.arg_objs, share_from.arg_own      # two states configured from ONE settings object
+        else:
+            self.arg_objs = {(w, f): c() for w in ("opt", "sched")
+                             for f, c in (("dict", dict), ("ordered", collections.OrderedDict), ("userdict", collections.UserDict))}
+            self.arg_own = {key: {} for key in self.arg_objs}
+        self.last_kw = {}
+        self.args_changed = []                # argument objects a fit() call of this history left changed: (name, run)
         R = self
 
         class RecSGD(torch.optim.SGD):
@@ -1002,6 +1139,8 @@ class Recorder:
                 o = big[:, ::2]                                 # non-contiguous tensor view
             elif form == "tensor_float32":
                 o = self.data_t.to(torch.float32)
+            elif form == "tuple":
+                o = tuple(tuple(float(x) for x in r) for r in d.tolist())
             else:
                 raise ValueError("unknown data form " + str(form))
             self.data_objs[form] = o
@@ -1041,15 +1180,24 @@ class Recorder:
         if self.mid is not None:
             cbs = "recording"
         if cbs == "recording":
-            kw["callbacks"] = [self.cb]
+            cc = run.get("cb_container") or "list"
+            if cc == "callback_list":
+                from qucumber.callbacks import CallbackList
+            kw["callbacks"] = ((self.cb,) if cc == "tuple" else (c for c in [self.cb]) if cc == "generator" else iter([self.cb]) if cc == "iter"
+                               else filter(None, [self.cb]) if cc == "filter" else CallbackList([self.cb]) if cc == "callback_list" else [self.cb])
         elif cbs == "empty_list":
             kw["callbacks"] = []
         elif cbs == "none":
             kw["callbacks"] = None
-        # the same dict objects are handed over at every call, their contents replaced in place
-        if run.get("optimizer_args") is not None:
-            self.opt_args.clear(); self.opt_args.update(run["optimizer_args"])
-            kw["optimizer_args"] = self.opt_args
+        # the caller's container objects (one per form for the whole history); the caller writes its OWN keys only
+        aform = run.get("args_form") or "shared"
+        reuse = bool(run.get("reuse_last_args"))          # follow-up call: exactly the objects of the previous call once more
+        if reuse:
+            for name in ("optimizer_args", "scheduler_args"):
+                if name in self.last_kw:
+                    kw[name] = self.last_kw[name]
+        elif run.get("optimizer_args") is not None or aform != "shared":
+            kw["optimizer_args"] = self.arg_container("opt", aform, run.get("optimizer_args") or {})
         if run["scheduler"] is not None:
             cls = self.sched_class(sched_kind(run["scheduler"]))
             skw = sched_kwargs(run["scheduler"])
@@ -1058,12 +1206,18 @@ class Recorder:
                 kw["scheduler"] = functools.partial(cls, **skw)            # every argument bound, scheduler_args omitted
             else:
                 kw["scheduler"] = cls if sform == "class" else _Factory(cls) if sform == "factory" else (lambda opt, **k: cls(opt, **k))
-                self.sched_args.clear(); self.sched_args.update(skw)
-                kw["scheduler_args"] = self.sched_args
+                if not reuse or "scheduler_args" not in kw:
+                    kw["scheduler_args"] = self.arg_container("sched", aform, skw)
+        elif aform == "shared_explicit" and not reuse:
+            kw["scheduler_args"] = self.arg_container("sched", aform, {})      # ignored by fit (no scheduler), accepted
         if spec["state"] != "positive":
             kw["input_bases"] = self.bases_np
         data = self.data_object(run.get("data_form") or ("tensor" if run.get("data_as_tensor") else "ndarray"))
         init_params = self.live_snap()
+        # deep snapshot of EVERY object handed to fit (containers, arrays, tensors; other objects by identity)
+        handed = dict(kw, data=data)
+        before_args = {name: _snap_arg(v) for name, v in handed.items()}
+        self.last_kw = kw
         handles = []
         if form in ("default", "sgd"):
             # no recording class can be handed over: optimizer.step is observed through torch's public global step hooks
@@ -1094,7 +1248,31 @@ class Recorder:
         if self.mid is not None and not self.mid.get("done"):
             ctx.count("mid_fit_in_place_edit_not_reached")
         self.mid = None
+        # what the call did to the objects the caller handed over.  Nothing in C06 forbids fit to write into them as such -
+        # what C06 demands is that the NEXT call with these objects still applies -lr * (CD gradient) with ITS lr / schedule:
+        # every change is counted here and makes run_case issue a follow-up fit() with the very same objects and another lr.
+        for name, v in handed.items():
+            try:
+                same = _same_arg(before_args[name], _snap_arg(v))
+            except Exception:
+                same = False
+            if not same:
+                ctx.count("argument_object_changed_by_fit:" + name)
+                self.args_changed.append((name, run))
         return ok, self.events, init_params
+
+    def arg_container(self, which, form, wanted):
+        """The caller's optimizer_args (which="opt") / scheduler_args ("sched") object in the given form, holding `wanted`."""
+        if form == "fresh":
+            return dict(wanted)
+        key = (which, form if form in ("ordered", "userdict") else "dict")
+        obj, own = self.arg_objs[key], self.arg_own[key]
+        for k in [k for k in own if k not in wanted]:        # a setting the caller no longer wants: it removes ITS key
+            own.pop(k); obj.pop(k, None)
+        for k, v in wanted.items():                          # a setting that is new or whose value changed: the caller writes it
+            if k not in own or own[k] is not v and not _plain_equal(own[k], v):
+                obj[k] = v; own[k] = v
+        return types.MappingProxyType(obj) if form == "proxy" else obj
 
 
 def tclose(a, b, rtol, atol):
@@ -1180,17 +1358,37 @@ def run_case(ctx, spec, model_every=1, label=None):
     torch.manual_seed(spec["torch_seed"])
     R = Recorder(spec)
     flags = {"need_stat": None}
-    for ri, (muts, run) in enumerate(runs):
+    if spec.get("prelude"):
+        # two models configured from ONE settings object: ANOTHER state object (same construction) is trained first, with
+        # the first call's arguments except the lr, the caller's optimizer_args / scheduler_args objects being the very same
+        R0 = Recorder(spec, share_from=R)
+        run0 = dict(runs[0][1], mid=None, **spec["prelude"])
+        ctx.count("prelude_fit_on_another_state_object_sharing_the_args_objects")
+        pcase = dict(case, fit_call=0, prelude_fit_on_another_state_object=True,
+                     **{("run_" + k): run0.get(k) for k in ("lr", "scheduler", "epochs", "k", "neg_batch_size") + tuple(RUN_OPTS)})
+        ok, events, init_params = R0.fit(ctx, run0, pcase)
+        if not ok:
+            return
+        analyse_run(ctx, spec, run0, pcase, R0, events, init_params, model_every, flags)
+        R.args_changed += R0.args_changed
+    ri = 0
+    while ri < len(runs):
+        muts, run = runs[ri]
+        ri += 1
         if muts and not R.mutate(ctx, muts):
             break
-        rcase = dict(case, fit_call=ri + 1, mutations_before_this_fit=[mu["op"] for mu in muts],
+        rcase = dict(case, fit_call=ri, mutations_before_this_fit=[mu["op"] for mu in muts],
                      **{("run_" + k): run.get(k) for k in ("lr", "scheduler", "epochs", "k", "neg_batch_size") + tuple(RUN_OPTS)})
+        if run.get("reuse_last_args"):
+            rcase["follow_up_fit_with_the_same_argument_objects_because_a_fit_changed"] = sorted({n for n, _ in R.args_changed})
         for key in ("optimizer_form:" + (run.get("opt_form") or "class"),
                     "scheduler_form:" + ("none" if run["scheduler"] is None else (run.get("sched_form") or "class")),
                     "scheduler_kind:" + str(sched_kind(run["scheduler"])),
                     "callbacks:" + ("recording" if run.get("mid") else (run.get("callbacks") or "recording")),
                     "integer_arguments:" + str(run.get("int_kind") or "python_int"),
-                    "data:" + (run.get("data_form") or ("tensor" if run.get("data_as_tensor") else "ndarray"))):
+                    "data:" + (run.get("data_form") or ("tensor" if run.get("data_as_tensor") else "ndarray")),
+                    "args_containers:" + ("same objects as the previous call" if run.get("reuse_last_args") else (run.get("args_form") or "shared")),
+                    "callbacks_container:" + (run.get("cb_container") or "list")):
             ctx.count(key)
         if run.get("mid"):
             rcase["in_place_edit_during_this_fit"] = {k: run["mid"][k] for k in ("op", "epoch", "batch")}
@@ -1199,6 +1397,14 @@ def run_case(ctx, spec, model_every=1, label=None):
             return
         if not analyse_run(ctx, spec, run, rcase, R, events, init_params, model_every, flags):
             break
+        if ri == len(runs) and R.args_changed and not run.get("reuse_last_args"):
+            # some fit() call of this history left an object of the caller changed: the caller hands the very same objects
+            # to one more call that asks for another lr (same scheduler settings, one or two epochs) - judged like any other call
+            ctx.count("follow_up_fit_after_argument_object_change")
+            fu = {k: v for k, v in run.items() if k != "mid"}
+            fu.update(lr=run["lr"] * 0.2, epochs=2 if run["scheduler"] is not None else 1, starting_epoch=1, reuse_last_args=True,
+                      callbacks="recording", cb_container="list")
+            runs.append(([], fu))
     if flags["need_stat"] is not None:
         # the chain of some batch could not be observed draw by draw: decide its LAW end to end
         ctx.count("vk_unobserved_decided_by_statistical_test")
@@ -1821,6 +2027,8 @@ def run(ctx):
     for st in stat_fixed(ctx):
         stat_case(ctx, st, [1, 2] if not ctx.thorough else [1, 2, 3], M=40000 if not ctx.thorough else 200000)
     for label, sp in fixed_call_forms(ctx):          # scheduler kinds, optimizer / scheduler call forms, no callbacks, numpy ints
+        run_case(ctx, sp, label=label)
+    for label, sp in fixed_shared_args(ctx):         # one optimizer_args / scheduler_args object handed to several calls
         run_case(ctx, sp, label=label)
     for label, sp in fixed_histories(ctx):           # same-object histories: every mutation operator x state type, never cut
         run_case(ctx, sp, label=label)
